@@ -4,6 +4,7 @@ import random
 import re
 import shutil
 import tempfile
+import time
 
 from vcheck import sexp, parse_sexp
 from gen import tracefs as T
@@ -12,7 +13,7 @@ ID = "C02"
 LEVEL = "proof"
 LEAN_IMPORTS = ["WM.Props.C02"]
 THEOREMS = ["WM.C02.crash_atomic", "WM.C02.cancel", "WM.C02.commit", "WM.C02.orphans_removed",
-            "WM.C02.pattern", "WM.C02.consistent_at"]
+            "WM.C02.next_commit", "WM.C02.pattern", "WM.C02.consistent_at"]
 PARTIAL = {}
 RULE = ("histories of random writer transactions (adds/deletes/updates/schema changes, every merge policy, "
         "compound and loose segments, commit/cancel/failing with-block) on a tracing FileStorage; one case = "
@@ -129,17 +130,26 @@ def _history_job(job):
     base = tempfile.mkdtemp(prefix="c02-", dir=job["scratch"])
     d = os.path.join(base, "ix")
     os.makedirs(d)
-    out = {"seed": job["seed"], "txns": []}
+    out = {"seed": job["seed"], "txns": [], "planned": job["ntxn"], "pre": job.get("pre", 0)}
     try:
         st = T.TracingFileStorage(d, supports_mmap=rng.random() < 0.7)
         tr = st.tracer
         tr.enabled = False
         index.FileIndex.create(st, T.make_schema(), IX)
         ix = index.FileIndex(st, indexname=IX)   # no schema override: the TOC's schema is used
+        # some histories start at a higher generation, so that the transactions cross a change in
+        # the number of digits of the generation (9 -> 10, 99 -> 100)
+        for _ in range(job.get("pre", 0)):
+            ix.writer().commit()
         docs = {}
         state = {"next": 0, "live": []}
         snapno = [0]
         for ti in range(job["ntxn"]):
+            # wall-clock bound of the enumeration: no new transaction after the deadline (the one
+            # in progress is always finished); the parent records how many were done
+            if job.get("deadline") and time.time() > job["deadline"] and not job.get("nodeadline"):
+                out["stopped"] = True
+                break
             force = job.get("force", [None] * job["ntxn"])[ti] if job.get("force") else None
             txn = T.gen_txn(rng, state, force=force)
             entries0 = T.dir_entries(st, IX)
@@ -264,21 +274,21 @@ def _check_history(ctx, h, stream):
         for ev in events:
             ctx.stat("event:" + ev[1])
         if t["error"]:
-            ctx.violation("writer-transaction-raises", {"seed": h["seed"], "txn": ti, "spec": txn},
+            ctx.violation("writer-transaction-raises", {"seed": h["seed"], "pre": h.get("pre", 0), "txn": ti, "spec": txn},
                           "transaction completes", t["error"], "a plain writer transaction raised")
             continue
         # dictionary model vs the completed transaction (C07-style sanity of old/new themselves)
         if t["dump_new"]["stored"] != t["model_new"]:
-            ctx.violation("commit-result!=dictionary-model", {"seed": h["seed"], "txn": ti, "spec": txn},
+            ctx.violation("commit-result!=dictionary-model", {"seed": h["seed"], "pre": h.get("pre", 0), "txn": ti, "spec": txn},
                           t["model_new"], t["dump_new"]["stored"],
                           "stored documents after the completed transaction differ from the dictionary model")
         committed = t["tmp"] is not None
         if committed != (t["outcome"] == "commit"):
-            ctx.violation("toc-rename-presence", {"seed": h["seed"], "txn": ti, "spec": txn},
+            ctx.violation("toc-rename-presence", {"seed": h["seed"], "pre": h.get("pre", 0), "txn": ti, "spec": txn},
                           t["outcome"], "rename" if committed else "no rename",
                           "a TOC was published by a cancelled writer, or none by a committing one")
         if committed and t["new"][0] != t["old"][0] + 1:
-            ctx.violation("generation-step", {"seed": h["seed"], "txn": ti}, t["old"][0] + 1, t["new"][0])
+            ctx.violation("generation-step", {"seed": h["seed"], "pre": h.get("pre", 0), "txn": ti}, t["old"][0] + 1, t["new"][0])
         # 1. the protocol predicate on the real trace
         req, tab, ins = _commit_request(t, t["entries0"], events, t["old"], t["new"], t["tmp"])
         # 2. the model's recovery at every boundary
@@ -319,7 +329,7 @@ def _judge(ctx, reqs, answers, stream):
             want = "ok post 1" if committed else "ok"
             if ans != want:
                 ctx.divergence("SafeCommitTrace" if committed else "SafeCancelTrace",
-                               {"seed": h["seed"], "txn": ti, "spec": t["txn"],
+                               {"seed": h["seed"], "pre": h.get("pre", 0), "txn": ti, "spec": t["txn"],
                                 "events": [list(e) for e in t["events"]][:400]},
                                want, ans)
         elif kind == "later":
@@ -327,14 +337,14 @@ def _judge(ctx, reqs, answers, stream):
             ctx.stat("later-writer-traces")
             if ans != "ok post 1":
                 ctx.divergence("SafeCommitTrace+CleansOrphans(later writer)",
-                               {"seed": h["seed"], "txn": ti, "boundary": k, "variant": vname}, "ok post 1", ans)
+                               {"seed": h["seed"], "pre": h.get("pre", 0), "txn": ti, "boundary": k, "variant": vname}, "ok post 1", ans)
         elif kind == "clean":
             h, ti, t, k, vname, lt = payload
             ctx.stat("orphan-inspections")
             if ans != "()":
                 left = ["".join(chr(int(c)) for c in n) for n in parse_sexp(ans)[0]]
                 ctx.violation("orphans-left-after-next-commit",
-                              {"seed": h["seed"], "txn": ti, "boundary": k, "variant": vname, "spec": t["txn"]},
+                              {"seed": h["seed"], "pre": h.get("pre", 0), "txn": ti, "boundary": k, "variant": vname, "spec": t["txn"]},
                               [], left, "files of unreferenced segments / stale TOCs survive the next commit")
             if any(lt["sub"].values()) or lt["sub"]:
                 ctx.stat("temp-dir-left")
@@ -358,7 +368,7 @@ def _judge_snaps(ctx, h, ti, t, pred, stream):
         ctx.case(("crash", canon[:k], vname, t["txn"]["merge"], t["txn"]["compound"]), nontrivial=inside)
         ctx.stat("%s:crash-points" % stream)
         ctx.stat("variant:" + vname)
-        case = {"seed": h["seed"], "txn": ti, "boundary": k, "of": len(events), "variant": vname,
+        case = {"seed": h["seed"], "pre": h.get("pre", 0), "txn": ti, "boundary": k, "of": len(events), "variant": vname,
                 "next_event": list(events[k]) if k < len(events) else None, "spec": t["txn"]}
         after = ren_at is not None and k > ren_at
         want_gen = new_gen if after else old_gen
@@ -398,17 +408,29 @@ def _judge_snaps(ctx, h, ti, t, pred, stream):
                 "events": len(events), "crash_points": len(t["snaps"])}, cap=4)
 
 
-def _histories(ctx, stream, njobs, ntxn, full, later_stride, trace_share, scratch, seeds=None, force=None):
+def _histories(ctx, stream, njobs, ntxn, full, later_stride, trace_share, scratch, seeds=None, force=None,
+               deadline=None, pre=0):
     jobs = []
     for i in range(njobs):
         jobs.append({"seed": seeds[i] if seeds else "%s:%s:%s:%d" % (ID, ctx.seed, stream, i), "ntxn": ntxn,
                      "full": full, "scratch": scratch, "later_stride": later_stride,
-                     "trace_share": trace_share, "force": force})
+                     "trace_share": trace_share, "force": force, "deadline": deadline,
+                     "pre": pre if seeds else [0, 8, 0, 9, 0, 0, 98, 7][i % 8],
+                     # replays and the first history always run in full
+                     "nodeadline": bool(seeds) or i == 0})
     results = ctx.pmap(history_job, jobs)
+    planned = sum(h.get("planned", ntxn) for h in results)
+    done = sum(len(h["txns"]) for h in results)
+    ctx.stat("%s:transactions-planned" % stream, planned)
+    ctx.stat("%s:transactions-done" % stream, done)
+    ctx.stat("%s:histories-cut-by-deadline" % stream, sum(1 for h in results if h.get("stopped")))
+    if done < planned:
+        ctx.note("%s stream: wall-clock bound reached, %d of %d planned transactions enumerated (%d histories cut)"
+                 % (stream, done, planned, sum(1 for h in results if h.get("stopped"))))
     reqs = []
     for h in results:
         reqs.extend(_check_history(ctx, h, stream))
-    answers = ctx.driver.ask([r[2] for r in reqs])
+    answers = ctx.driver.ask_parallel([r[2] for r in reqs])
     _judge(ctx, reqs, answers, stream)
     return results
 
@@ -536,12 +558,18 @@ def run(ctx):
     _listings(ctx)
     with ctx.scratch() as scratch:
         quick = ctx.tier == "quick"
-        _histories(ctx, "main", njobs=ctx.budget(16, 48), ntxn=ctx.budget(3, 4), full=not quick,
-                   later_stride=ctx.budget(7, 4), trace_share=ctx.budget(0.3, 0.4), scratch=scratch)
+        # the enumeration is bounded in wall-clock time (measured from the start of the check):
+        # ~60 s quick / ~10 min thorough; boosted budgets and a loaded machine then mean fewer
+        # transactions, not a longer run
+        deadline = ctx.t0 + (45 if quick else 600)
+        _histories(ctx, "main", njobs=ctx.budget(16, 48), ntxn=(3 if quick else 4) * ctx.boost, full=not quick,
+                   later_stride=7 if quick else 4, trace_share=0.3 if quick else 0.4, scratch=scratch,
+                   deadline=deadline)
         if ctx.divergences or ctx.violations:
-            # something is off: spend more budget looking for a failing input
-            _histories(ctx, "search", njobs=ctx.budget(16, 64), ntxn=ctx.budget(2, 4), full=True,
-                       later_stride=ctx.budget(5, 2), trace_share=0.2, scratch=scratch)
+            # something is off: spend some more budget looking for a failing input
+            _histories(ctx, "search", njobs=ctx.budget(16, 64), ntxn=2 if quick else 4, full=True,
+                       later_stride=5 if quick else 2, trace_share=0.2, scratch=scratch,
+                       deadline=max(time.time(), deadline) + (15 if quick else 150))
 
 
 def _corpus(ctx):
@@ -564,7 +592,7 @@ def _replay_case(ctx, rec, scratch):
         return False
     before = len(ctx.violations) + len(ctx.divergences)
     _histories(ctx, "replay", njobs=1, ntxn=case.get("txn", 0) + 1, full=True, later_stride=1, trace_share=1.0,
-               scratch=scratch, seeds=[seed])
+               scratch=scratch, seeds=[seed], pre=case.get("pre", 0))
     return len(ctx.violations) + len(ctx.divergences) > before
 
 
